@@ -21,7 +21,13 @@ Fixpoint parse_digits (acc : Z) (prev_digit : bool) (s : string) : option Z :=
     else if Ascii.eqb c "_" && prev_digit then parse_digits acc false r
     else None
   end.
+(* CPython >= 3.11: int(str) raises ValueError when the text has more than sys.get_int_max_str_digits() (default 4300)
+   digit characters — leading zeros count, underscores, sign and surrounding whitespace do not *)
+Definition int_max_str_digits : nat := 4300.
+Fixpoint count_digits (s : string) : nat :=
+  match s with "" => O | String c r => if is_digit c then S (count_digits r) else count_digits r end.
 Definition py_int (txt : string) : option Z :=
+  if Nat.ltb int_max_str_digits (count_digits (py_strip txt)) then None else
   match py_strip txt with
   | String c r =>
     if Ascii.eqb c "-" then (match parse_digits 0 false r with Some z => Some (- z)%Z | None => None end)
